@@ -20,8 +20,13 @@
     - github.com/wk8/go-ordered-map/v2: [orderedmap.New[int, uint](orderedmap.WithCapacity[int, uint](n))] = [[]],
       [m.Set(k, v)] = [om_set m k v], [m.Value(k)] = [om_get m k], [m.Len()] = [om_len m] (Snap/MatchSupport.v);
       here it is PROVED that [Set(k, Value(k)+1)] is the model's [om_incr];
-    - [for i := range s] = [range_loop] over [go_indices s]; [log.Printf] = nothing; [int]/[uint] = exact [Z];
-      slices are values (no sharing of backing arrays). *)
+    - [for i := range s] = [range_loop] over [go_indices s]; [for i, x := range s] = [range_loop] over [go_enum s];
+      [log.Printf] = nothing; [int]/[uint] = exact [Z]; slices are values (no sharing of backing arrays);
+    - (repair of F16) [ringsAreEqual] = [Snap.Model.ringsAreEqual] (signature checked; tied to the source on its own in
+      Snap/ProofsGenRingHelpers.v); the Go [map[int]int] [cancelledBy] = [imap] of Snap/MatchSupport.v
+      ([make(map[int]int, n)] = [[]], [m[k] = v] = [im_set], [v, ok := m[k]] = [im_get] / [im_has]); here it is PROVED
+      that the two nested loops with [break] that fill the map compute the model's [cancelledBy] and that the
+      comma-ok test is the model's [skipCancelled]. *)
 From Coq Require Import ZArith List Bool Lia.
 From Texel Require Import Prelude.Base Prelude.GoLoop Index.Model Snap.Model Snap.MatchSupport
   Snap.ProofsBasics Snap.ProofsMatch.
@@ -62,55 +67,82 @@ Proof.
 Qed.
 
 (** ** the loop over the polygon indices = the inner [go] of the model's [matchVertices] *)
-Definition scan (v : pt) : list (list (list pt)) -> Z -> list (Z * Z) -> res (list (Z * Z)) :=
+Definition scan (cancelled : list (Z * Z)) (innerI : Z) (v : pt)
+  : list (list (list pt)) -> Z -> list (Z * Z) -> res (list (Z * Z)) :=
   fix go (l : list (list (list pt))) (k : Z) (c : list (Z * Z)) : res (list (Z * Z)) :=
     match l with
     | [] => Ok c
     | p :: rest =>
-        do outer <- idx p 0;
-        do cb <- ringContains outer v;
-        go rest (k + 1) (if fst cb then om_incr c k else c)
+        if skipCancelled cancelled k innerI then go rest (k + 1) c
+        else
+          do outer <- idx p 0;
+          do cb <- ringContains outer v;
+          go rest (k + 1) (if fst cb then om_incr c k else c)
     end.
 
-Lemma scan_cons v (p : list (list pt)) rest k c :
-  scan v (p :: rest) k c =
-  do outer <- idx p 0; do cb <- ringContains outer v; scan v rest (k + 1) (if fst cb then om_incr c k else c).
+Lemma scan_cons cancelled innerI v (p : list (list pt)) rest k c :
+  scan cancelled innerI v (p :: rest) k c =
+  if skipCancelled cancelled k innerI then scan cancelled innerI v rest (k + 1) c
+  else do outer <- idx p 0; do cb <- ringContains outer v;
+       scan cancelled innerI v rest (k + 1) (if fst cb then om_incr c k else c).
 Proof. reflexivity. Qed.
 
-Lemma matchVertices_cons polys v r counts :
-  matchVertices polys (v :: r) counts =
-  do counts' <- scan v polys 0 counts;
+Lemma matchVertices_cons cancelled innerI polys v r counts :
+  matchVertices cancelled innerI polys (v :: r) counts =
+  do counts' <- scan cancelled innerI v polys 0 counts;
   let '(k, n) := maxWinners counts' in
-  if n =? 1 then Ok (Some k, counts') else matchVertices polys r counts'.
+  if n =? 1 then Ok (Some k, counts') else matchVertices cancelled innerI polys r counts'.
 Proof. reflexivity. Qed.
 
-Lemma gen_scan {R : Type} (polys : list (list (list pt))) (v : pt) : forall (l pre : list (list (list pt))) (c : omap),
+(** ** the Go map: comma-ok lookup = the model's [skipCancelled] *)
+Lemma im_find_cb_find (m : imap) k : im_find m k = cb_find m k.
+Proof. induction m as [| [k' v] m IH]; cbn [im_find cb_find]; [reflexivity | rewrite IH; reflexivity]. Qed.
+
+Lemma skip_eq (m : imap) k i : (im_has m k && negb (im_get m k =? i)) = skipCancelled m k i.
+Proof. unfold im_has, im_get, skipCancelled. rewrite im_find_cb_find. destruct (cb_find m k); reflexivity. Qed.
+
+Lemma im_set_fresh (m : imap) k v : (forall k', In k' (map fst m) -> k' < k) -> im_set m k v = m ++ [(k, v)].
+Proof.
+  induction m as [| [k' v'] m IH]; intro H; cbn [im_set app]; [reflexivity |].
+  destruct (Z.eqb_spec k k') as [-> | N].
+  - specialize (H k' (or_introl eq_refl)). lia.
+  - rewrite IH; [reflexivity |]. intros x Hx. apply H. right. exact Hx.
+Qed.
+
+Lemma gen_scan {R : Type} (cancelled : imap) (innerI : Z) (polys : list (list (list pt))) (v : pt) :
+  forall (l pre : list (list (list pt))) (c : omap),
   polys = pre ++ l ->
   range_loop (R := R)
     (fun (polyI : Z) (c : omap) =>
-       do t1 <- idx polys polyI;
-       do t2 <- idx t1 0;
-       do t3 <- ringContains t2 v;
-       do c <- (if fst t3 then Ok (om_set c polyI (om_get c polyI + 1)) else Ok c);
-       Ok (Cont c))
+       if im_has cancelled polyI && negb (im_get cancelled polyI =? innerI) then Ok (Cont c)
+       else
+         do t1 <- idx polys polyI;
+         do t2 <- idx t1 0;
+         do t3 <- ringContains t2 v;
+         do c <- (if fst t3 then Ok (om_set c polyI (om_get c polyI + 1)) else Ok c);
+         Ok (Cont c))
     (map Z.of_nat (seq (length pre) (length l))) c
-  = match scan v l (zlen pre) c with Ok c' => Ok (Next c') | Err e => Err e end.
+  = match scan cancelled innerI v l (zlen pre) c with Ok c' => Ok (Next c') | Err e => Err e end.
 Proof.
   induction l as [| p l IH]; intros pre c E; [reflexivity |].
-  cbn [length seq map range_loop]. rewrite scan_cons. rewrite E at 1. rewrite idx_app_mid. cbn [bind].
-  destruct (idx p 0) as [outer | e]; cbn [bind]; [| reflexivity].
-  destruct (ringContains outer v) as [cb | e]; cbn [bind]; [| reflexivity].
+  cbn [length seq map range_loop]. rewrite scan_cons. rewrite skip_eq. fold (zlen pre).
   assert (E' : polys = (pre ++ [p]) ++ l) by (rewrite <- app_assoc; exact E).
   specialize (IH (pre ++ [p])). rewrite app_length in IH. cbn [length] in IH.
   replace (length pre + 1)%nat with (S (length pre)) in IH by lia.
   replace (zlen (pre ++ [p])) with (zlen pre + 1) in IH by (unfold zlen; rewrite app_length; cbn [length]; lia).
+  destruct (skipCancelled cancelled (zlen pre) innerI); [apply IH, E' |].
+  unfold zlen at 1. rewrite E at 1. rewrite idx_app_mid. cbn [bind].
+  destruct (idx p 0) as [outer | e]; cbn [bind]; [| reflexivity].
+  destruct (ringContains outer v) as [cb | e]; cbn [bind]; [| reflexivity].
+  fold (zlen pre).
   destruct (fst cb); cbn [bind].
   - rewrite om_set_get_incr. apply IH, E'.
   - apply IH, E'.
 Qed.
 
 (** ** the loop over the vertices of one inner ring = [matchVertices] *)
-Lemma gen_vertices {R : Type} (inner : list pt) (sorted : option (list Z)) (turned : list (list pt)) :
+Lemma gen_vertices {R : Type} (cancelled : imap) (innerI : Z) (inner : list pt) (sorted : option (list Z))
+                   (turned : list (list pt)) :
   forall (verts : list pt) (polys : list (list (list pt))) (c : omap),
   keys_in (zlen polys) c ->
   range_loop (R := rctl (list (list (list pt)) * option (list Z) * list (list pt)) R)
@@ -118,11 +150,13 @@ Lemma gen_vertices {R : Type} (inner : list pt) (sorted : option (list Z)) (turn
        do out <- range_loop (R := rctl (list (list (list pt)) * omap)
                                        (rctl (list (list (list pt)) * option (list Z) * list (list pt)) R))
                    (fun (polyI : Z) (c : omap) =>
-                      do t1 <- idx polygons polyI;
-                      do t2 <- idx t1 0;
-                      do t3 <- ringContains t2 vertex;
-                      do c <- (if fst t3 then Ok (om_set c polyI (om_get c polyI + 1)) else Ok c);
-                      Ok (Cont c))
+                      if im_has cancelled polyI && negb (im_get cancelled polyI =? innerI) then Ok (Cont c)
+                      else
+                        do t1 <- idx polygons polyI;
+                        do t2 <- idx t1 0;
+                        do t3 <- ringContains t2 vertex;
+                        do c <- (if fst t3 then Ok (om_set c polyI (om_get c polyI + 1)) else Ok c);
+                        Ok (Cont c))
                    (go_indices polygons) c;
        match out with
        | Ret r => Ok r
@@ -134,7 +168,7 @@ Lemma gen_vertices {R : Type} (inner : list pt) (sorted : option (list Z)) (turn
            else Ok (Cont (polygons, c))
        end)
     verts (polys, c)
-  = match matchVertices polys verts c with
+  = match matchVertices cancelled innerI polys verts c with
     | Err e => Err e
     | Ok (Some k, _) => Ok (Ret (Cont (append_inner polys k inner, sorted, turned)))
     | Ok (None, c') => Ok (Next (polys, c'))
@@ -142,13 +176,13 @@ Lemma gen_vertices {R : Type} (inner : list pt) (sorted : option (list Z)) (turn
 Proof.
   induction verts as [| v verts IH]; intros polys c Hk; [reflexivity |].
   cbn [range_loop]. unfold go_indices.
-  rewrite (gen_scan polys v polys [] c eq_refl). change (zlen (@nil (list (list pt)))) with 0.
+  rewrite (gen_scan cancelled innerI polys v polys [] c eq_refl). change (zlen (@nil (list (list pt)))) with 0.
   rewrite matchVertices_cons.
-  destruct (scan v polys 0 c) as [c1 | e] eqn:Hs; cbn [bind]; [| reflexivity].
+  destruct (scan cancelled innerI v polys 0 c) as [c1 | e] eqn:Hs; cbn [bind]; [| reflexivity].
   destruct (maxWinners c1) as [k n] eqn:Mw. cbn [fst snd].
-  assert (Hone : matchVertices polys [v] c = Ok (if n =? 1 then Some k else None, c1)).
+  assert (Hone : matchVertices cancelled innerI polys [v] c = Ok (if n =? 1 then Some k else None, c1)).
   { rewrite matchVertices_cons, Hs. cbn [bind]. rewrite Mw. destruct (n =? 1); reflexivity. }
-  destruct (matchVertices_keys _ _ _ _ _ Hk Hone) as [Hk1 Hin].
+  destruct (matchVertices_keys _ _ _ _ _ _ _ Hk Hone) as [Hk1 Hin].
   destruct (n =? 1).
   - assert (Hr : 0 <= k < zlen polys) by (apply Hk1, Hin; reflexivity).
     destruct (idx_setidx_append polys k inner Hr) as [p [Hi Hset]].
@@ -188,20 +222,24 @@ Proof.
 Qed.
 
 (** ** the labelled loop over the inner rings = [matchInnersLoop] *)
-Definition outer_body (v_innerRing : list pt)
-  (st : list (list (list pt)) * option (list Z) * list (list pt))
-  : res (rctl (list (list (list pt)) * option (list Z) * list (list pt)) (list (list (list pt)))) :=
+Definition outer_body (cancelled : imap) (ix : Z * list pt)
+  : list (list (list pt)) * option (list Z) * list (list pt) ->
+    res (rctl (list (list (list pt)) * option (list Z) * list (list pt)) (list (list (list pt)))) :=
+  let '(innerI, v_innerRing) := ix in
+  fun st =>
   let '(v_polygons, v_sorted, v_turned) := st in
   do out <- range_loop (R := rctl (list (list (list pt)) * option (list Z) * list (list pt)) (list (list (list pt))))
     (fun (vertex : pt) '((polygons, c) : list (list (list pt)) * omap) =>
        do out <- range_loop (R := rctl (list (list (list pt)) * omap)
                                        (rctl (list (list (list pt)) * option (list Z) * list (list pt)) (list (list (list pt)))))
                    (fun (polyI : Z) (c : omap) =>
-                      do t1 <- idx polygons polyI;
-                      do t2 <- idx t1 0;
-                      do t3 <- ringContains t2 vertex;
-                      do c <- (if fst t3 then Ok (om_set c polyI (om_get c polyI + 1)) else Ok c);
-                      Ok (Cont c))
+                      if im_has cancelled polyI && negb (im_get cancelled polyI =? innerI) then Ok (Cont c)
+                      else
+                        do t1 <- idx polygons polyI;
+                        do t2 <- idx t1 0;
+                        do t3 <- ringContains t2 vertex;
+                        do c <- (if fst t3 then Ok (om_set c polyI (om_get c polyI + 1)) else Ok c);
+                        Ok (Cont c))
                    (go_indices polygons) c;
        match out with
        | Ret r => Ok r
@@ -225,21 +263,23 @@ Definition outer_body (v_innerRing : list pt)
         Ok (Cont (v_polygons, v_sorted, v_turned))
   end.
 
-Lemma gen_outer : forall (inners : list (list pt)) (polys : list (list (list pt))) (sorted : option (list Z))
-                         (turned : list (list pt)),
+Lemma gen_outer (cancelled : imap) : forall (inners : list (list pt)) (n : nat) (polys : list (list (list pt)))
+                         (sorted : option (list Z)) (turned : list (list pt)),
   exists sorted',
-    range_loop (R := list (list (list pt))) outer_body inners (polys, sorted, turned)
-    = match matchInnersLoop polys inners sorted turned with
+    range_loop (R := list (list (list pt))) (outer_body cancelled)
+      (combine (map Z.of_nat (seq n (length inners))) inners) (polys, sorted, turned)
+    = match matchInnersLoop cancelled (Z.of_nat n) polys inners sorted turned with
       | Ok (p, t) => Ok (Next (p, sorted', t))
       | Err e => Err e
       end.
 Proof.
-  induction inners as [| inner rest IH]; intros polys sorted turned; [exists sorted; reflexivity |].
-  cbn [range_loop matchInnersLoop]. unfold outer_body at 1.
+  induction inners as [| inner rest IH]; intros n polys sorted turned; [exists sorted; reflexivity |].
+  cbn [length seq map combine range_loop matchInnersLoop]. unfold outer_body at 1.
   assert (K0 : keys_in (zlen polys) []) by (intros k []).
-  rewrite (gen_vertices inner sorted turned inner polys [] K0).
-  destruct (matchVertices polys inner []) as [[mk counts] | e] eqn:Hm; cbn [bind]; [| exists sorted; reflexivity].
-  destruct (matchVertices_keys _ _ _ _ _ K0 Hm) as [Kc _].
+  rewrite (gen_vertices cancelled (Z.of_nat n) inner sorted turned inner polys [] K0).
+  replace (Z.of_nat n + 1) with (Z.of_nat (S n)) by lia.
+  destruct (matchVertices cancelled (Z.of_nat n) polys inner []) as [[mk counts] | e] eqn:Hm; cbn [bind]; [| exists sorted; reflexivity].
+  destruct (matchVertices_keys _ _ _ _ _ _ _ K0 Hm) as [Kc _].
   destruct mk as [k |]; cbn [bind]; [apply IH |].
   rewrite om_len_0. destruct (length counts =? 0)%nat eqn:El; [apply IH |].
   assert (Hne : polys <> []).
@@ -272,6 +312,82 @@ Proof.
   rewrite IH by (rewrite <- app_assoc; exact E). rewrite <- app_assoc. reflexivity.
 Qed.
 
+(** ** (repair of F16) the two loops that fill the Go map [cancelledBy] = the model's [cancelledBy] *)
+Lemma gen_firstEqual {R : Type} (polys : list (list (list pt))) (inners : list (list pt)) (polyI : Z) (p : list (list pt)) :
+  idx polys polyI = Ok p -> forall (l pre : list (list pt)) (m : imap),
+  inners = pre ++ l ->
+  range_loop (R := R)
+    (fun (innerI : Z) (m : imap) =>
+       do t1 <- idx polys polyI;
+       do t2 <- idx t1 0;
+       do t3 <- idx inners innerI;
+       do t4 <- ringsAreEqual t2 t3 true false;
+       if t4 then Ok (Brk (im_set m polyI innerI)) else Ok (Cont m))
+    (map Z.of_nat (seq (length pre) (length l))) m
+  = match firstEqualInner p l (zlen pre) with
+    | Err e => Err e
+    | Ok (Some j) => Ok (Next (im_set m polyI j))
+    | Ok None => Ok (Next m)
+    end.
+Proof.
+  intro Hp.
+  match goal with |- forall l pre m, _ -> range_loop ?b _ _ = _ => set (body := b) end.
+  induction l as [| h l IH]; intros pre m E; [reflexivity |].
+  cbn [length seq map range_loop firstEqualInner]. unfold polygon, Base.ring in *.
+  unfold body at 1. cbv beta. rewrite Hp. cbn [bind].
+  destruct (idx p 0) as [outer | e]; cbn [bind]; [| reflexivity].
+  rewrite E at 1. rewrite idx_app_mid. cbn [bind].
+  destruct (ringsAreEqual outer h true false) as [[|] | e]; cbn [bind]; [reflexivity | | reflexivity].
+  specialize (IH (pre ++ [h]) m). rewrite app_length in IH. cbn [length] in IH.
+  replace (length pre + 1)%nat with (S (length pre)) in IH by lia.
+  replace (zlen (pre ++ [h])) with (zlen pre + 1) in IH by (unfold zlen; rewrite app_length; cbn [length]; lia).
+  apply IH. rewrite <- app_assoc. exact E.
+Qed.
+
+Lemma gen_cancelled {R : Type} (polys : list (list (list pt))) (inners : list (list pt)) :
+  forall (l pre : list (list (list pt))) (m : imap),
+  polys = pre ++ l -> (forall k, In k (map fst m) -> k < zlen pre) ->
+  range_loop (R := R)
+    (fun (polyI : Z) (m : imap) =>
+       do out <- range_loop (R := rctl imap R)
+                   (fun (innerI : Z) (m : imap) =>
+                      do t1 <- idx polys polyI;
+                      do t2 <- idx t1 0;
+                      do t3 <- idx inners innerI;
+                      do t4 <- ringsAreEqual t2 t3 true false;
+                      if t4 then Ok (Brk (im_set m polyI innerI)) else Ok (Cont m))
+                   (go_indices inners) m;
+       match out with
+       | Ret r => Ok r
+       | Next m => Ok (Cont m)
+       end)
+    (map Z.of_nat (seq (length pre) (length l))) m
+  = match cancelledByFrom l inners (zlen pre) with
+    | Err e => Err e
+    | Ok m' => Ok (Next (m ++ m'))
+    end.
+Proof.
+  match goal with |- forall l pre m, _ -> _ -> range_loop ?b _ _ = _ => set (body := b) end.
+  induction l as [| p l IH]; intros pre m E Hm; [cbn [length seq map range_loop cancelledByFrom]; rewrite app_nil_r; reflexivity |].
+  cbn [length seq map range_loop cancelledByFrom]. unfold body at 1. cbv beta. unfold go_indices.
+  assert (Hp : idx polys (Z.of_nat (length pre)) = Ok p) by (rewrite E; apply idx_app_mid).
+  rewrite (gen_firstEqual polys inners (Z.of_nat (length pre)) p Hp inners [] m eq_refl).
+  change (zlen (@nil (list pt))) with 0.
+  assert (E' : polys = (pre ++ [p]) ++ l) by (rewrite <- app_assoc; exact E).
+  pose proof (IH (pre ++ [p])) as IH'. rewrite app_length in IH'. cbn [length] in IH'.
+  replace (length pre + 1)%nat with (S (length pre)) in IH' by lia.
+  replace (zlen (pre ++ [p])) with (zlen pre + 1) in IH' by (unfold zlen; rewrite app_length; cbn [length]; lia).
+  destruct (firstEqualInner p inners 0) as [[j |] | e]; cbn [bind]; [| | reflexivity].
+  - fold (zlen pre). rewrite (im_set_fresh m (zlen pre) j Hm).
+    rewrite (IH' (m ++ [(zlen pre, j)]) E').
+    + destruct (cancelledByFrom l inners (zlen pre + 1)) as [m' | e]; cbn [bind]; [| reflexivity].
+      rewrite <- app_assoc. reflexivity.
+    + intros k Hk. rewrite map_app in Hk. apply in_app_or in Hk. destruct Hk as [Hk | [<- | []]]; [specialize (Hm k Hk); lia | cbn [fst]; lia].
+  - rewrite (IH' m E').
+    + destruct (cancelledByFrom l inners (zlen pre + 1)) as [m' | e]; reflexivity.
+    + intros k Hk. specialize (Hm k Hk). lia.
+Qed.
+
 (** ** the function *)
 Theorem gen_matchInnersToPolygons_spec (polys : list (list (list pt))) (inners : list (list pt)) (hasInners : bool) :
   gen_matchInnersToPolygons polys inners hasInners = matchInnersToPolygons polys inners.
@@ -279,9 +395,16 @@ Proof.
   unfold gen_matchInnersToPolygons, matchInnersToPolygons. cbv zeta. unfold polygon, Base.ring.
   destruct inners as [| inner rest]; [reflexivity |].
   change (zlen (inner :: rest) =? 0) with false. cbv iota.
-  destruct (gen_outer (inner :: rest) polys None []) as [s' H].
-  unfold outer_body in H. rewrite H. clear H.
-  match goal with |- context [matchInnersLoop ?a ?b ?c ?d] => destruct (matchInnersLoop a b c d) as [[p t] | e] end;
+  unfold go_indices at 1.
+  rewrite (gen_cancelled polys (inner :: rest) polys [] [] eq_refl) by (intros k []).
+  change (zlen (@nil (list (list pt)))) with 0. unfold cancelledBy. cbn [app].
+  destruct (cancelledByFrom polys (inner :: rest) 0) as [cancelled | e]; cbn [bind]; [| reflexivity].
+  destruct (gen_outer cancelled (inner :: rest) 0 polys None []) as [s' H].
+  unfold outer_body in H.
+  change (go_enum (inner :: rest)) with (combine (map Z.of_nat (seq 0 (length (inner :: rest)))) (inner :: rest)).
+  rewrite H. clear H.
+  change (Z.of_nat 0) with 0.
+  match goal with |- context [matchInnersLoop ?c ?i ?a ?b ?d ?f] => destruct (matchInnersLoop c i a b d f) as [[p t] | e] end;
     cbn [bind]; [| reflexivity].
   unfold go_indices. rewrite (gen_turned t t [] p eq_refl). reflexivity.
 Qed.
